@@ -234,7 +234,9 @@ PROPS = {
     "C12": {"streams": [S("mkproc", "canon", ["C12"], 0, 0, explicit=mkproc_scope, exhaustive=True),
                         S("mkproc", "canon", ["C12"], 2000, 60000, {"nmax": 8}),
                         S("loader", "canon", ["C12"], 2000, 60000, {"valid": 0.9, "defect": 0.05, "dead": 0.2})]},
-    "C13": {"streams": [S("recase", "canon", [], 2500, 80000)]},
+    "C13": {"streams": [S("recase", "canon", [], 2500, 80000),
+                        # mnemonics: the instruction-set / compile stream, incl. its beyond-domain oracle cases
+                        S("isa", "all", ["C13"], 1500, 40000, direct="C13_isa / C13_compile")]},
     "C14": {"streams": [S("parse", "all", ["C14", "C14x"], 4000, 150000, direct="C14_roundtrip / C14_no_operands / C14_empty_operand")]},
     "C15": {"streams": [S("isa", "all", ["C15"], 3000, 100000, direct="C15_isa_ok / C15_isa_first_defect / C15_compile_ok / C15_compile_fail"),
                         S("abilities", "all", ["C15"], 1000, 30000, direct="C15_abilities"),
@@ -464,7 +466,11 @@ def match_known(open_known, rep):
     import matchers
     for k in open_known:
         m = getattr(matchers, k["matcher"], None)
-        if m and m(rep):
+        try:
+            hit = bool(m and m(rep))
+        except Exception:  # noqa: BLE001  a matcher that cannot read the report does not match it
+            hit = False
+        if hit:
             return k
     return None
 
